@@ -14,11 +14,17 @@ mv "$WT/MUTANTS" "$TMPM/MUTANTS"; M="$TMPM/MUTANTS/$K"
 restore() { mv "$TMPM/MUTANTS" "$WT/MUTANTS"; rmdir "$TMPM"; }
 cd "$WT" && git checkout -q -- . && git clean -fdq
 git apply "$M/patch.diff" || { echo "RESULT $NAME patch-does-not-apply"; restore; exit 1; }
-suite_ok=no
+suite_ok=yes
 # the suite's 1-2 ms evaluation timeouts fire at random on a loaded machine: a change counts as
-# passing the suite if one complete run is clean; packages are run one at a time to keep load down
-for try in 1 2 3 4 5 6; do
-  if go test -p 1 -vet=off -count=1 ./... > "$TMPM/suite.log" 2>&1; then suite_ok=yes; break; fi
+# passing the suite if every package has one clean run (packages are run one at a time, up to 10 tries)
+: > "$TMPM/suite.log"
+for pkg in $(go list ./... | grep -v MUTANTS); do
+  pkg_ok=no
+  for try in 1 2 3 4 5 6 7 8 9 10; do
+    if go test -p 1 -vet=off -count=1 "$pkg" > "$TMPM/pkg.log" 2>&1; then pkg_ok=yes; break; fi
+  done
+  cat "$TMPM/pkg.log" >> "$TMPM/suite.log"
+  [ $pkg_ok = yes ] || { suite_ok=no; break; }
 done
 cp "$M/demo_test.go" "$WT/$DEMO_DIR/zz_demo_test.go"
 PKG="./$DEMO_DIR"
